@@ -653,7 +653,14 @@ pub fn long_history(u: &[LMember], uname: &str, pid: &str, rot: usize, reversed:
         order.reverse();
     }
     let mut fail: Option<(String, String)> = None;
+    u1::reset_counters();
     let (portable, ids, steps) = run_long(u, pid, &order, &mut fail, sweep_every);
+    if pid == "C05" {
+        let (a, b) = u1::counters();
+        if a > 1 || b > 1 {
+            fail.get_or_insert(("evaluated-more-than-once".into(), format!("a type definition was evaluated {} times while building one registry", a.max(b))));
+        }
+    }
     let metas: Vec<(MetaType, u32)> = order.iter().map(|i| (u[*i].meta, ids[*i])).collect();
     match pid {
         "C01" => {
